@@ -355,3 +355,39 @@ func VerifH19g() {
 	}
 	nd.Reach("H19g.end")
 }
+
+// VerifH19h: two goroutines write records of two different transactions at the same time
+// (through the real manager): every record decodes to what its writer encoded - in particular
+// to its writer's transaction id.
+func VerifH19h() {
+	mgr, err := badger.New(nd.ScratchDir())
+	nd.Assert(err == nil, "H19h.open")
+	if err != nil {
+		return
+	}
+	r := New(mgr)
+	ctx := context.Background()
+	txA, txB := "6ba7b810-9dad-11d1-80b4-00c04fd430c8", model.MainTxId
+	mk := func(cid, tx string, seq uint64) model.File {
+		return model.File{Key: "k", TxId: tx, ContentId: cid, Seq: sequence.Seq(seq)}
+	}
+	// an earlier write of A's transaction (whatever a codec may remember, it remembers A's)
+	nd.Assert(r.Set(ctx, mk("00112233-4455-6677-8899-aabbccddee00", txA, 1)) == nil, "H19h.first")
+	fa, fb := mk("00112233-4455-6677-8899-aabbccddee01", txA, 2), mk("00112233-4455-6677-8899-aabbccddee02", txB, 3)
+	var ea, eb error
+	nd.SpawnRunsFirst(true)
+	nd.SetPreemptionBound(1 + nd.Tier())
+	go func() { eb = r.Set(ctx, fb) }()
+	ea = r.Set(ctx, fa)
+	nd.JoinAll()
+	nd.SetPreemptionBound(0)
+	nd.Assert(ea == nil && eb == nil, "H19h.set-ok")
+	all, err := r.GetAll(ctx)
+	nd.Assert(err == nil && len(all) == 3, "H19h.getall")
+	if err != nil || len(all) != 3 {
+		return
+	}
+	nd.Assert(all[1].TxId == txA && all[1].Seq == 2, "H19h.record-decodes-to-its-writers-transaction")
+	nd.Assert(all[2].TxId == txB && all[2].Seq == 3, "H19h.record-decodes-to-its-writers-transaction")
+	nd.Reach("H19h.end")
+}
